@@ -58,15 +58,19 @@ T = {
             "same search through the MarkdownIt facade.",
             "rule-name universe {a,b,z}, alt chains {x,y}, <=3 (thorough 4) rules", "3 C11"),
     "C12": ("model_checking", "explicit-state BFS over API-call histories, state = generic shared-heap fingerprint",
-            "BFS over histories of construct/parse/render/enable/option/render-rule operations on 1-2 live instances; "
-            "after every history every instance is probed on a document pool and compared with a reference table "
-            "computed in a separate pristine interpreter.",
+            "BFS over histories of construct/parse/render/enable/option/render-rule/plugin/set-from-other-instance/"
+            "deep-stack-fault/token-edit operations on 1-2 live instances, every transition executed in a process "
+            "forked from a master that never calls the library; after every transition every instance is probed on a "
+            "document pool and compared with probes computed one document per pristine process; no mutable object "
+            "may be reachable from two instances; shared presets and caller-owned dicts must be unchanged.",
             "document pool and operation alphabet in evidence; depth bound", "3 C12"),
     "C13": ("model_checking", "stateless exploration of all thread interleavings under a controlled scheduler "
             "(iterative preemption bounding, sys.monitoring)",
-            "Real threads serialised by a baton; every placement of 1 preemption at bytecode granularity and 2 at "
-            "line granularity for pairs of calls on fresh / reconfigured instances; every re-entry point of nested "
-            "calls; each result must equal the solo result, horizon = hang.",
+            "Real threads serialised by a baton, one pristine forked process per execution; every placement of 1 "
+            "preemption (LINE events + bytecode INSTRUCTION events inside ruler.py) and 2 preemptions around the shared "
+            "writes for pairs of calls on fresh / reconfigured / warmed instances; documents that write the shared heap "
+            "on a warmed instance are explored in windows around their writes; every re-entry point of nested calls; "
+            "each result must equal the solo result, horizon = hang.",
             "CPython GIL semantics (switches only between bytecodes); 8-document pool x scenarios", "3 C13"),
     "C14": ("fault_enumeration", "exhaustive fault injection at every callback invocation x exception class",
             "For every rule of every chain, render rule and the highlight callback: raise instead of / after the i-th "
